@@ -316,6 +316,25 @@ def pointer_default_rule(repo: Repo, rep: Report, rid: str) -> None:
               "the wrong width" if bad else "", fi.loc(stores[0]))
 
 
+def whole_buffer_rule(repo: Repo, rep: Report, rid: str) -> None:
+    rep.rule(rid, "a value parsed from a bytes-like object sees the whole object as its stream: MetaType.reads wraps its argument itself in the BytesIO it "
+                  "parses from - not a slice of it: pointers keep that stream and dereference absolute offsets behind the value's own bytes")
+    fi = repo.func("types/base.py", "MetaType.reads")
+    data = fi.params[1] if len(fi.params) > 1 else "data"
+    from ..util import resolve_local
+
+    wraps = [c for c in ast.walk(fi.node) if isinstance(c, ast.Call) and call_name(c) == "BytesIO"]
+    ok = bool(wraps)
+    why = "no BytesIO(...) found"
+    for c in wraps:
+        a0 = resolve_local(fi.node, c.args[0]) if c.args and isinstance(c.args[0], ast.Name) else (c.args[0] if c.args else None)
+        whole = a0 is not None and (norm(a0) == data or (isinstance(a0, ast.Call) and call_name(a0) in ("bytes", "memoryview", "bytearray") and a0.args and norm(a0.args[0]) == data))
+        if not whole or any(isinstance(x, ast.Subscript) and norm(x.value) == data for x in ast.walk(fi.node)):
+            ok, why = False, f"'{short(c, 50)}' (or a slice of '{data}' elsewhere in the function)"
+    rep.check(ok, rid, f"{fi.key}:whole-buffer", "BytesIO(<the argument itself>)", f"MetaType.reads parses from {why}: a pointer in the parsed value can no longer "
+              "reach what lies behind the value's own bytes in the caller's buffer", fi.loc())
+
+
 def run(repo: Repo, rep: Report, tier: str) -> None:
     from .compiled import compiled_fold_rule
 
@@ -335,3 +354,4 @@ def run(repo: Repo, rep: Report, tier: str) -> None:
     from .c18 import offsets_before_compile_rule
 
     offsets_before_compile_rule(repo, rep, "C16.R10")
+    whole_buffer_rule(repo, rep, "C16.R11")
